@@ -848,6 +848,8 @@ var c09MetaShapes = []string{
 	// instructions, a DOCTYPE, comments
 	"prolog-latin1", "prolog-xml11", "prolog-utf16-name", "prolog-ascii", "prolog-bom", "prolog-bom-decl", "prolog-standalone", "prolog-pi", "prolog-doctype",
 	"prolog-comment", "prolog-decl-in-entities", "prolog-empty-encoding", "prolog-garbage-decl",
+	// a federation aggregate nested a quarter of a million levels deep (10 MB): a result or an error, not the end of the process
+	"entities-nested-250000",
 }
 
 var c09Prologs = map[string]string{
@@ -948,6 +950,9 @@ func c09BuildMetadata(shape string) []byte {
 		return []byte(`<EntitiesDescriptor ` + ns + `></EntitiesDescriptor>`)
 	case "entities-nested":
 		return []byte(`<EntitiesDescriptor ` + ns + `><EntitiesDescriptor>` + idp + `</EntitiesDescriptor></EntitiesDescriptor>`)
+	case "entities-nested-250000":
+		const n = 250000
+		return []byte(`<EntitiesDescriptor ` + ns + `>` + strings.Repeat(`<EntitiesDescriptor>`, n) + idp + strings.Repeat(`</EntitiesDescriptor>`, n) + `</EntitiesDescriptor>`)
 	case "entitydescriptor-no-idp":
 		return []byte(spmd)
 	case "idp-no-keydescriptor":
